@@ -61,7 +61,11 @@ fn c03_all() {
                 "package a; parcelable P { int; }", "package a; enum E { A = , B }", "package a; @A( interface I { }", "package a; interface I { const int K; }", "package a; interface I { void f(in); }",
                 "package a; parcelable P { List<> l; }", "package a; parcelable P { Map<String> m; }", "package a; parcelable P { int[ a; }", "package a; interface I { oneway oneway void f(); }",
                 "package a; interface I { void f() = ; }", "package a; interface I { void f() = x; }", "package a; import a..B; interface I { }", "package a.; interface I { }", "package a; parcelable P { int a = ; }",
-                "package a; interface I { in int f(); }", "package a; interface { }", "package a; parcelable P { Map<String, , int> m; }", "package a; enum E { A B }", "package a; interface I { void f(int a int b); }"];
+                "package a; interface I { in int f(); }", "package a; interface { }", "package a; parcelable P { Map<String, , int> m; }", "package a; enum E { A B }", "package a; interface I { void f(int a int b); }",
+                // order of the header statements and of the item: package, imports, forward declarations, ONE item, nothing after it
+                "package a; parcelable X; import a.Y; interface I { }", "package a; import a.Y; parcelable X; import a.Z; interface I { }", "package a; import a.Y; @A parcelable X; import a.Z; interface I { }",
+                "import a.Y; package a; interface I { }", "package a; package b; interface I { }", "package a; interface I { } import a.Y;", "package a; interface I { } parcelable X;", "package a; import a.Y interface I { }",
+                "package a; parcelable X interface I { }", "package a; oneway parcelable P { int a; }", "package a; oneway enum E { A }", "package a; interface I { } package a;", "parcelable X; package a; interface I { }"];
     let structural = 13 + near.len();
     for s in near.iter() { bad.push(s.to_string()); }
     for b in bad.iter() {
